@@ -21,6 +21,14 @@ def suites(tier):
     for cfg in product(scheme=[0, 1, 2], cs=[0], fwd=[0, 1]):
         cfg.update(norm=0, pos=0, rep=0, pk=0, slab=0, best=1, nmin=0, nmax=nmax, mmin=1, mmax=mmax, c16=0, c32=0)
         jobs.append(dict(id=jid("v2", cfg), func="zzH_C03_v2", cfg=cfg))
+    # single-character patterns on longer lines (window trimming of the ASCII pre-filter)
+    for cfg in product(scheme=[0], cs=[0], fwd=[0, 1]):
+        cfg.update(norm=0, pos=0, rep=3, pk=2, slab=0, best=1, nmin=4, nmax=4 if tier == "quick" else 6, mmin=1, mmax=1 if tier == "quick" else 2, c16=0, c32=0)
+        jobs.append(dict(id=jid("v2tiny", cfg), func="zzH_C03_v2", cfg=cfg))
+    # non-ASCII runes
+    for cfg in product(scheme=[0], cs=[0], norm=[0, 1], fwd=[1]):
+        cfg.update(pos=0, rep=2, pk=1, slab=0, best=1, nmin=1, nmax=2 if tier == "quick" else 3, mmin=1, mmax=2, c16=0, c32=0)
+        jobs.append(dict(id=jid("v2runes", cfg), func="zzH_C03_v2", cfg=cfg))
     # dirty scratch slab (arbitrary stale contents): the score must still be the recurrence's
     for cfg in product(scheme=[0], cs=[0], fwd=[0, 1], c16=[16, 40]):
         cfg.update(norm=0, pos=0, rep=0, pk=0, slab=1, best=0, nmin=1, nmax=nmax, mmin=1, mmax=mmax, c32=12)
